@@ -2,12 +2,15 @@
 
 Proof: Props/C04.lean states, over the hand-written transcription Model/When.lean of when.go / matcher.go /
 arg/expr.go / arg/value.go / mocker.go:callback, that for every signature shape, every well-formed configuration and
-every argument tuple `invoke` returns the result of the first registered condition that holds (declarative `Sat`),
+every history of further registrations and calls (through reflect or compiled call sites, any receiver, any argument
+tuple) each call returns the result of the first condition registered *before it* that holds (declarative `Sat`),
 else the default, else panics `nosuitable` (NumOut > 0) / returns nothing (NumOut = 0); receiver ignored; variadic
-tail matched element-wise.  Tie X: an in-package probe of the root package installs generated configurations on a
-corpus of 34 real functions/methods (fixed arity 0..4, variadic behind 0..3 fixed parameters, pointer and value
-receivers, 0..3 results), calls the *patched* functions and When.Eval, and the model driver answers the same lines.
-The oracle below is a separate reference interpreter of the documented rule applied to the implementation's output.
+tail matched element-wise, nil or empty.  Tie X: an in-package probe of the root package installs generated
+configurations on a corpus of 43 real functions/methods (fixed arity 0..4, variadic behind 0..3 fixed parameters,
+pointer and value receivers, unexported methods through As(), interface variables, 0..3 results), interleaves
+registrations with calls of the *patched* functions (reflect, compiled call sites, concurrent goroutines) and
+When.Eval, and the model driver answers the same lines.  The oracle below is a separate reference interpreter of the
+documented rule that works from the text of the line alone and is applied to the implementation's output.
 """
 import os
 
@@ -15,26 +18,31 @@ from vlib import common as C
 
 META = {
     'property_id': 'C04',
-    'technique': 'Lean 4 theorems (induction over configurations, expression trees and argument tuples) about a transcription of When/Matcher/Expr + differential run of generated configurations on 34 really patched corpus functions and When.Eval',
+    'technique': 'Lean 4 theorems (induction over configurations, histories of registrations and calls, expression trees and argument tuples) about a transcription of When/Matcher/Expr + differential run of generated histories on 43 really patched corpus functions (reflect, compiled and concurrent calls) and When.Eval',
     'level': 'proof',
-    'level_text': 'Full proof on the model: for every signature (fixed arity, variadic behind k >= 0 fixed parameters, methods), every well-formed configuration (optional default, then any number of When/In clauses over values, Any, nested In) and every argument tuple, invoke returns the result of the first registered condition whose expressions all hold, else the default, else panics "no suitable condition" when the function has results (returns normally when it has none); the receiver is ignored and the variadic tail is matched element by element.',
-    'level_note': 'Trusted: Lean kernel (propext, Classical.choice, Quot.sound), the hand transcription Model/When.lean (tied by the differential run on every check run; distribution in the evidence), the probe and its value domains. Abstracted: argument equality is a parameter (C18), result sequences/cursor only for single-result matchers (C05), types of values (only arities), reflect.MakeFunc/Call ABI (C01). The theorems describe the repaired matching code (fixes/F6.diff incl. F6b, fixes/F6c.diff); on the unrepaired code the oracle reports the violations. One configuration shape is excluded by an explicit hypothesis (known finding C04-K1: a configuration starting with When() without arguments; full statement invoke_spec_full is refuted in Findings/C04K1.lean).',
+    'level_text': 'Full proof on the model: for every signature (fixed arity, variadic behind k >= 0 fixed parameters, methods), every well-formed configuration (optional default, then any number of When/In/Matches clauses over values, Any, nested In) and every later history of further registrations and calls, each call returns the result of the first condition registered before it whose expressions all hold, else the default, else panics "no suitable condition" when the function has results (returns normally when it has none); the receiver is ignored and the variadic tail is matched element by element, whether the caller passes it as an empty or a nil slice.',
+    'level_note': 'Trusted: Lean kernel (propext, Classical.choice, Quot.sound), the hand transcription Model/When.lean (tied by the differential run on every check run; distribution in the evidence), the probe and its value domains. Abstracted: argument equality is a parameter (C18), result sequences/cursor only for single-result matchers (C05), types of values (only arities), reflect.MakeFunc/Call ABI (C01); concurrent calls are observed on the implementation (the model is sequential; single-result conditions have no call-time state, theorem invoke_inv2). The theorems describe the repaired code (fix diffs F6/F6c applied; F27-c04-first-when-variadic and F28-c04-in-bare-nonslice drafted in fixes/): on a tree without them the oracle reports the violations. Two configuration shapes are excluded or recorded: known finding C04-K1 (a configuration starting with When() without arguments; invoke_spec_full is refuted in Findings/C04K1.lean) and C04-K2 (an unexported method mocked through ExportMethod().As(): goom treats the receiver as an ordinary first parameter, so conditions written for the method are refused).',
 }
 
-# name -> (parameter kinds without receiver, variadic, method, results)
+# name -> (parameter kinds without receiver, variadic, method (2 = unexported method through As), results)
 T = {
     'f0': ([], 0, 0, 1), 'f1': (['int'], 0, 0, 1), 'f2': (['int', 'string'], 0, 0, 1), 'f3': (['int', 'string', 'bool'], 0, 0, 2),
     'f1s': (['string'], 0, 0, 3), 'f1i': (['iface'], 0, 0, 1), 'f2p': (['ptr', 'int'], 0, 0, 1), 'f1t': (['struct'], 0, 0, 1),
     'f1sl': (['slice'], 0, 0, 1), 'f1n': (['int'], 0, 0, 0), 'f2n': (['int', 'int'], 0, 0, 0), 'f4': (['int'] * 4, 0, 0, 1),
-    'f2b': (['bool', 'bool'], 0, 0, 2),
+    'f2b': (['bool', 'bool'], 0, 0, 2), 'f2f': (['float', 'uint8'], 0, 0, 1),
     'v0': (['int'], 1, 0, 1), 'v0s': (['string'], 1, 0, 2), 'v1': (['int', 'int'], 1, 0, 1), 'v1s': (['string', 'int'], 1, 0, 1),
     'v2': (['int', 'string', 'int'], 1, 0, 1), 'v2b': (['bool', 'int', 'string'], 1, 0, 3), 'v0i': (['iface'], 1, 0, 1),
     'v1n': (['int', 'int'], 1, 0, 0), 'v1sl': (['slice', 'int'], 1, 0, 1), 'v3': (['int'] * 4, 1, 0, 1), 'v1i': (['iface', 'iface'], 1, 0, 1),
+    'v1f': (['uint8', 'float'], 1, 0, 1),
     'M0': ([], 0, 1, 1), 'M1': (['int'], 0, 1, 1), 'M2': (['int', 'string'], 0, 1, 2), 'M3': (['int', 'iface', 'bool'], 0, 1, 1),
     'MN': (['int'], 0, 1, 0), 'MV': (['int'], 1, 1, 1), 'MV1': (['int', 'int'], 1, 1, 1), 'MV2': (['string', 'int', 'string'], 1, 1, 2),
     'V1': (['int'], 0, 1, 1), 'VV': (['int', 'int'], 1, 1, 1),
+    'U1': (['int'], 0, 2, 1), 'UV': (['int', 'int'], 1, 2, 1),
+    'I0': ([], 0, 1, 1), 'I1': (['int'], 0, 1, 1), 'I2': (['int', 'string'], 0, 1, 2), 'IV': (['int', 'int'], 1, 1, 1), 'IN': (['int'], 0, 1, 0),
 }
-DOM = {'int': '0123', 'string': '0123', 'bool': '01', 'iface': '0123n', 'ptr': '01n', 'struct': '0123', 'slice': '0123n'}
+NO_RECV = {'I0', 'I1', 'I2', 'IV', 'IN'}          # interface variable: there is no receiver value to choose
+DOM = {'int': '0123', 'string': '0123', 'bool': '01', 'iface': '0123n', 'ptr': '01n', 'struct': '0123', 'slice': '0123n',
+       'float': '0123', 'uint8': '0123'}
 NAMES = sorted(T)
 PROBE_FILES = {'zz_verif_c04_corpus_test.go': 'c04/corpus_test.go', 'zz_verif_c04_probe_test.go': 'c04/probe_test.go'}
 
@@ -49,6 +57,11 @@ def kind_at(name, j):
     if not k:
         return 'int'
     return k[min(j, len(k) - 1)]
+
+
+def arity_ok(name, n):
+    k, v, _, _ = T[name]
+    return n >= len(k) - 1 if v else n == len(k)
 
 
 # ------------------------------------------------------------------ spec terms: ('*',) | ('v', idx) | ('i', [(is_tuple, [spec..])..])
@@ -70,6 +83,11 @@ def sat(s, x):
     return any(len(a) == 1 and sat(a[0], x) for _, a in s[1])
 
 
+def nested_ok(s):
+    """an arg.In used at one position: every alternative stands for one value"""
+    return s[0] != 'i' or all(len(a) == 1 and nested_ok(a[0]) for _, a in s[1])
+
+
 def sat_tuple(specs, xs):
     return len(specs) == len(xs) and all(sat(s, x) for s, x in zip(specs, xs))
 
@@ -79,6 +97,159 @@ def cond_holds(cond, xs):
         return sat_tuple(cond[1], xs)
     return any(sat_tuple(a, xs) for a in cond[1])    # 'in': alternatives already as tuples of specs
 
+
+# ------------------------------------------------------------------ reading a line (the oracle and the shrinker work from the text alone)
+
+def pspec(s, pos):
+    ch = s[pos]
+    if ch == '*':
+        return ('*',), pos + 1
+    if ch == '{':
+        alts, pos = [], pos + 1
+        while True:
+            if s[pos] == '[':
+                xs, pos = plist(s, pos + 1, ']')
+                alts.append((True, xs))
+            else:
+                x, pos = pspec(s, pos)
+                alts.append((False, [x]))
+            if s[pos] == '|':
+                pos += 1
+                continue
+            break
+        return ('i', alts), pos + 1
+    return ('v', ch), pos + 1
+
+
+def plist(s, pos, end):
+    xs = []
+    if s[pos] == end:
+        return xs, pos + 1
+    while True:
+        x, pos = pspec(s, pos)
+        xs.append(x)
+        if pos < len(s) and s[pos] == ',':
+            pos += 1
+            continue
+        break
+    return xs, pos + 1
+
+
+def split_line(op):
+    """header tokens and the list of steps (token lists); sections are separated by ' | ', steps by ' ; '"""
+    parts = [x.strip() for x in op.split(' | ')]
+    head = parts[0].split()
+    steps = []
+    for sec in parts[1:]:
+        steps += [c.split() for c in sec.split(' ; ') if c.strip()]
+    return head, steps
+
+
+def join_line(head, steps):
+    return ' '.join(head) + ' | ' + ' ; '.join(' '.join(s) for s in steps)
+
+
+def parse_args(a):
+    return [] if a == '-' else a.split(',')
+
+
+def walk(op):
+    """Interpret a line by the documented rule.  Returns (events, wf, k1, name, mode) where events has one entry per
+    step: ('reg',) for a clause, ('call', want, cls, ties) for a call, ('conc', [want..]) — or wf=False when the line
+    uses anything outside the well-formed language (then the oracle keeps silent and only the correspondence counts)."""
+    head, steps = split_line(op)
+    mode, name = head[1], head[2]
+    k, v, m, o = T[name]
+    conds, dflt, pending, first, wf, k1 = [], None, None, True, True, False
+    events = []
+
+    def expect(xs):
+        holding = [r for c, r in conds if cond_holds(c, xs)]
+        if holding:
+            want = f'ret:{holding[0]}'
+            cls = 'matched-first' if conds[0][1] == holding[0] else 'matched-later'
+        elif dflt is not None:
+            want, cls = f'ret:{dflt}', 'default'
+        elif o > 0:
+            want, cls = 'panic:nosuitable', 'panic-no-suitable'
+        else:
+            want, cls = 'ret:-', 'no-results-no-default'
+        if o == 0 and want.startswith('ret:'):
+            want = 'ret:-'
+        return want, cls, len(holding) >= 2
+
+    for st in steps:
+        kind = st[0]
+        if kind == 'call':
+            xs = parse_args(st[2])
+            if not arity_ok(name, len(xs)):
+                wf = False
+            events.append(('call',) + expect(xs))
+            continue
+        if kind == 'conc':
+            wants = []
+            for t in st[2:]:
+                xs = parse_args(t.split(':', 1)[1])
+                if not arity_ok(name, len(xs)):
+                    wf = False
+                wants.append(expect(xs)[0])
+            events.append(('conc', wants))
+            continue
+        events.append(('reg',))
+        if kind == 'ret':
+            rid = int(st[1])
+            if pending is not None:
+                conds.append((pending, rid))
+                pending = None
+            elif first:
+                if o > 0:
+                    dflt = rid
+                else:
+                    dflt = None     # Return() on a function without results configures nothing that could be observed
+            else:
+                wf = False
+        elif kind == 'when':
+            sp = [] if st[1] == '-' else plist(st[1] + ']', 0, ']')[0]
+            if pending is not None or not arity_ok(name, len(sp)) or not all(nested_ok(s) for s in sp):
+                wf = False
+            if first and not sp:
+                k1 = True           # K1: the first clause is When() without arguments
+            pending = ('when', sp)
+        elif kind == 'in':
+            if pending is not None:
+                wf = False
+            alts = []
+            for idx, a in enumerate(st[1:]):
+                if a.startswith('<'):
+                    vs = [x for x in a[1:-1].split(',') if x]
+                    alts.append([('v', x) for x in vs])
+                    # a typed slice stands for whole argument lists only from alternative index n-1 on, and only if
+                    # its element type is also the type of every fixed parameter
+                    if not (v and idx >= len(k) - 1 and all(kk == k[-1] for kk in k)):
+                        wf = False
+                elif a.startswith('['):
+                    alts.append(plist(a, 1, ']')[0])
+                else:
+                    alts.append([pspec(a, 0)[0]])
+                if not arity_ok(name, len(alts[-1])) or not all(nested_ok(s) for s in alts[-1]):
+                    wf = False
+            pending = ('in', alts)
+        elif kind == 'matches' and not first and o >= 1:
+            if pending is not None:
+                wf = False
+            for pr in st[1:]:
+                a, _, kk = pr.rpartition('=')
+                sp = plist(a, 1, ']')[0] if a.startswith('[') else [pspec(a, 0)[0]]
+                if not arity_ok(name, len(sp)) or not all(nested_ok(s) for s in sp):
+                    wf = False
+                conds.append((('when', sp), int(kk)))
+        else:
+            wf = False              # retx, andret, returns, matches as first clause / on a result-less function
+        first = False
+    return events, wf, k1, name, mode
+
+
+# ------------------------------------------------------------------ generator
 
 class Gen:
     def __init__(self, rng):
@@ -94,122 +265,73 @@ class Gen:
             d = d[:2] + (d[-1] if d[-1] == 'n' and self.r.chance(1, 4) else '')
         return self.r.choice(d)
 
-    def spec(self, kind, depth=0):
+    def spec(self, kind, depth=0, maxdepth=2, maxalts=3):
         p = self.r.below(100)
-        if p < 55 or depth >= 2 and p < 80:
+        if p < 55 or depth >= maxdepth and p < 80:
             self.count('spec.value')
             return ('v', self.val(kind, self.r.chance(3, 4)))
-        if p < 75 or depth >= 2:
+        if p < 75 or depth >= maxdepth:
             self.count('spec.any')
             return ('*',)
         self.count('spec.in' if depth == 0 else 'spec.in.nested')
         alts = []
-        for _ in range(1 + self.r.below(3)):
-            alts.append((self.r.chance(1, 3), [self.spec(kind, depth + 1)]))
+        for _ in range(1 + self.r.below(maxalts)):
+            alts.append((self.r.chance(1, 3), [self.spec(kind, depth + 1, maxdepth, maxalts)]))
         return ('i', alts)
 
-    def arity(self, name, first_when=False):
-        k, v, _, _ = T[name]
+    def arity(self, name, maxtail=3):
+        k, v, m, _ = T[name]
         if not v:
             return len(k)
-        t = self.r.below(4)
-        if first_when and t == 0 and not self.r.chance(1, 10):
-            t = 1
-        return len(k) - 1 + t
+        if m == 2:
+            # As()-method (K2): goom counts the receiver as a parameter.  Only arities it refuses up front are generated;
+            # a longer condition would be resolved against the receiver type (an int cast to a pointer).
+            return len(k) - 1
+        return len(k) - 1 + self.r.below(maxtail + 1)
 
-    def specs(self, name, n):
-        return [self.spec(kind_at(name, j)) for j in range(n)]
+    def specs(self, name, n, **kw):
+        return [self.spec(kind_at(name, j), **kw) for j in range(n)]
 
-    def config(self, name, malformed):
-        """returns (clauses as strings, structured view or None when not in the well-formed language)"""
+    def cond_steps(self, name, malformed, big):
+        """one condition: [clause] (its `ret` is added by the caller); returns (step tokens, condition or None)"""
         k, v, m, o = T[name]
-        clauses, conds, dflt, wf = [], [], None, True
-        rid = 1
-        if self.r.chance(7, 10):
-            dflt = 0
-            clauses.append('ret 0')
-        ncond = self.r.choice([0, 1, 1, 2, 2, 3, 3, 4, 5, 6])
-        if dflt is None and ncond == 0:
-            ncond = 1
-        for ci in range(ncond):
-            first = not clauses
-            if self.r.chance(6, 10) or (first and len(k) == 0):
-                n = self.arity(name, first_when=first)
-                if malformed and self.r.chance(1, 4):
-                    n = max(0, n + self.r.choice([-1, 1, 2]))
-                    wf = False
-                sp = self.specs(name, n)
-                if n == 0:
-                    clauses.append('when -')
-                else:
-                    clauses.append('when ' + ','.join(show_spec(s) for s in sp))
-                cond = ('when', sp)
-                self.count('clause.when')
+        kw = {'maxdepth': 4, 'maxalts': 8} if big else {}
+        maxtail = 8 if big else 3
+        if self.r.chance(6, 10) or len(k) == 0:
+            n = self.arity(name, maxtail)
+            if malformed and m != 2 and self.r.chance(1, 4):
+                n = max(0, n + self.r.choice([-1, 1, 2]))
+            sp = self.specs(name, n, **kw)
+            self.count('clause.when')
+            return ['when', ','.join(show_spec(s) for s in sp) if sp else '-'], ('when', sp)
+        alts, toks = [], []
+        for ai in range(1 + self.r.below(8 if big else 3)):
+            n = self.arity(name, maxtail)
+            form = self.r.below(10)
+            if malformed and m != 2 and self.r.chance(1, 4):
+                n = max(0, n + self.r.choice([-1, 1]))
+            homog = v and m != 2 and all(kk == k[-1] for kk in k)
+            if homog and ai >= len(k) - 1 and form < 4:
+                vs = [x for x in (self.val(k[-1], True) for _ in range(n)) if x != 'n']
+                if k[-1] == 'iface' or len(vs) < len(k) - 1:
+                    vs = vs + [DOM[k[-1]][0]] * (len(k) - 1 - len(vs))
+                toks.append('<' + ','.join(vs) + '>')
+                alts.append([('v', x) for x in vs])
+                self.count('in.alt.typed-slice')
+            elif (arity_ok(name, 1) and form < 6) or (malformed and form == 9):
+                s = self.spec(kind_at(name, 0), **kw)
+                if v and kind_at(name, 0) == 'slice' and s[0] == 'v':
+                    s = ('*',)      # a bare []int value IS a typed slice for goom: written as <..> above instead
+                toks.append(show_spec(s))
+                alts.append([s])
+                self.count('in.alt.bare')
             else:
-                alts, toks = [], []
-                for ai in range(1 + self.r.below(3)):
-                    n = self.arity(name)
-                    form = self.r.below(10)
-                    if malformed and self.r.chance(1, 4):
-                        wf = False
-                        if self.r.chance(1, 2):
-                            n = max(0, n + self.r.choice([-1, 1]))
-                        else:
-                            form = 9   # bare where goom wants something else
-                    if v and len(k) == 1 and form < 4:
-                        vs = [self.val(k[0], True) for _ in range(n)]
-                        vs = [x for x in vs if x != 'n']
-                        toks.append('<' + ','.join(vs) + '>')
-                        alts.append([('v', x) for x in vs])
-                        self.count('in.alt.typed-slice')
-                    elif (not v and len(k) == 1 and form < 5) or form == 9:
-                        s = self.spec(kind_at(name, 0))
-                        if v and kind_at(name, 0) in ('string', 'slice', 'iface'):
-                            s = ('*',)   # a bare string/slice would be expanded by reflection into bytes/elements: types are not modelled
-                        toks.append(show_spec(s))
-                        alts.append([s])
-                        self.count('in.alt.bare')
-                        if v or len(k) != 1:
-                            wf = False
-                    else:
-                        sp = self.specs(name, n)
-                        toks.append('[' + ','.join(show_spec(s) for s in sp) + ']')
-                        alts.append(sp)
-                        self.count('in.alt.tuple')
-                clauses.append('in ' + ' '.join(toks))
-                cond = ('in', alts)
-                self.count('clause.in')
-            clauses.append(f'ret {rid}')
-            conds.append((cond, rid))
-            rid += 1
-            if o >= 1 and self.r.chance(1, 8):      # Matches(Pair{args, k}, ...) = one When(args).Return(k) per pair
-                prs = []
-                for _ in range(1 + self.r.below(2)):
-                    n = self.arity(name)
-                    sp = self.specs(name, n)
-                    prs.append(f'[{",".join(show_spec(s) for s in sp)}]={rid}')
-                    conds.append((('when', sp), rid))
-                    rid += 1
-                clauses.append('matches ' + ' '.join(prs))
-                self.count('clause.matches')
-            if malformed and self.r.chance(1, 5):
-                wf = False
-                extra = self.r.below(5)
-                if extra == 0:
-                    clauses.append(f'andret {rid}')
-                elif extra == 1:
-                    clauses.append(f'ret {rid}')
-                elif extra == 2 and o >= 1:
-                    clauses.append(f'returns {rid} {rid + 1}')
-                elif extra == 3 and o >= 1:
-                    n = self.arity(name)
-                    sp = self.specs(name, n)
-                    clauses.append(f'matches [{",".join(show_spec(s) for s in sp)}]={rid}')
-                else:
-                    clauses.append(f'retx {rid} {self.r.below(4)}')
-                rid += 2
-                self.count('clause.malformed-extra')
-        return clauses, ({'dflt': dflt, 'conds': conds} if wf else None)
+                sp = self.specs(name, n, **kw)
+                toks.append('[' + ','.join(show_spec(s) for s in sp) + ']')
+                alts.append(sp)
+                self.count('in.alt.tuple')
+        self.count('clause.in')
+        return ['in'] + toks, ('in', alts)
 
     def instance(self, name, cond):
         """an argument tuple that satisfies (or nearly satisfies) a condition"""
@@ -222,146 +344,219 @@ class Gen:
             xs.append(s[1] if s[0] == 'v' and not self.r.chance(1, 8) else self.val(kind, True))
         return xs
 
-    def call(self, name, view, conds_hint):
+    def call_args(self, name, conds, direct):
         k, v, m, o = T[name]
-        if conds_hint and self.r.chance(6, 10):
-            xs = self.instance(name, self.r.choice(conds_hint)[0])
-            nmin = len(k) - 1 if v else len(k)
-            if len(xs) < nmin or (not v and len(xs) != len(k)):
+        xs = None
+        if conds and self.r.chance(6, 10):
+            xs = self.instance(name, self.r.choice(conds))
+            if not arity_ok(name, len(xs)):
                 xs = None
-        else:
-            xs = None
         if xs is None:
             n = len(k) - 1 + self.r.below(4) if v else len(k)
+            if v and self.r.chance(1, 4):
+                n = len(k) - 1          # no variadic argument at all: the nil tail of a compiled call
             xs = [self.val(kind_at(name, j), self.r.chance(2, 3)) for j in range(n)]
-        # nil is not a legal element of a typed variadic tail of ints/strings; domains allow it only where Go does
-        recv = str(self.r.below(2)) if m else '-'
+        if direct:
+            xs = [x if x != 'n' else '0' for x in xs]    # the compiled call sites take concrete values only
+        recv = '-' if (not m or name in NO_RECV) else str(self.r.below(2))
         return recv, xs
 
-    def line(self, name=None, malformed=False):
+    def call_step(self, name, conds, direct):
+        r, xs = self.call_args(name, conds, direct)
+        return ['call', r, ','.join(xs) if xs else '-']
+
+    def line(self, name=None, malformed=False, big=False):
         name = name or self.r.choice(NAMES)
-        clauses, view = self.config(name, malformed)
+        k, v, m, o = T[name]
         p = self.r.below(100)
-        mode = 'call' if p < 60 else 'callm' if p < 75 else 'eval'
-        hint = view['conds'] if view else None
-        calls = [self.call(name, view, hint) for _ in range(8)]
-        text = f'c04 {mode} {name} {sig_of(name)} | ' + ' ; '.join(clauses) + ' | ' + \
-               ' ; '.join(f'call {r} {",".join(xs) if xs else "-"}' for r, xs in calls)
-        return text, {'name': name, 'mode': mode, 'view': view, 'calls': calls, 'nclauses': len(clauses)}
-
-
-REGRESS = [  # past failures / the documented defect inputs, run first
-    ('c04 call v2 n=3,v=1,m=0,o=1 | ret 0 ; when 1,1,2,3 ; ret 1 | call - 1,1,2,3 ; call - 1,1 ; call - 1,1,2',
-     {'name': 'v2', 'mode': 'call', 'nclauses': 3, 'view': {'dflt': 0, 'conds': [(('when', [('v', '1'), ('v', '1'), ('v', '2'), ('v', '3')]), 1)]},
-      'calls': [('-', ['1', '1', '2', '3']), ('-', ['1', '1']), ('-', ['1', '1', '2'])]}),
-    ('c04 call v1s n=2,v=1,m=0,o=1 | ret 0 ; when 1,2 ; ret 1 | call - 1,2 ; call - 3',
-     {'name': 'v1s', 'mode': 'call', 'nclauses': 3, 'view': {'dflt': 0, 'conds': [(('when', [('v', '1'), ('v', '2')]), 1)]},
-      'calls': [('-', ['1', '2']), ('-', ['3'])]}),
-    ('c04 call v1 n=2,v=1,m=0,o=1 | ret 0 ; in [1,2] [2] ; ret 1 | call - 1,2 ; call - 2 ; call - 1',
-     {'name': 'v1', 'mode': 'call', 'nclauses': 3, 'view': {'dflt': 0, 'conds': [(('in', [[('v', '1'), ('v', '2')], [('v', '2')]]), 1)]},
-      'calls': [('-', ['1', '2']), ('-', ['2']), ('-', ['1'])]}),
-    ('c04 call v0 n=1,v=1,m=0,o=1 | ret 0 ; in [1,2] [3] ; ret 1 | call - 3 ; call - 1,2',
-     {'name': 'v0', 'mode': 'call', 'nclauses': 3, 'view': {'dflt': 0, 'conds': [(('in', [[('v', '1'), ('v', '2')], [('v', '3')]]), 1)]},
-      'calls': [('-', ['3']), ('-', ['1', '2'])]}),
-    ('c04 eval M1 n=1,v=0,m=1,o=1 | ret 0 ; when 1 ; ret 1 | call 0 1 ; call 1 0',
-     {'name': 'M1', 'mode': 'eval', 'nclauses': 3, 'view': {'dflt': 0, 'conds': [(('when', [('v', '1')]), 1)]},
-      'calls': [('0', ['1']), ('1', ['0'])]}),
-    ('c04 eval v0 n=1,v=1,m=0,o=1 | ret 0 ; when 1,2 ; ret 1 | call - 1,2 ; call - -',
-     {'name': 'v0', 'mode': 'eval', 'nclauses': 3, 'view': {'dflt': 0, 'conds': [(('when', [('v', '1'), ('v', '2')]), 1)]},
-      'calls': [('-', ['1', '2']), ('-', [])]}),
-]
+        mode = 'call' if p < 40 else 'callm' if p < 50 else 'calld' if p < 75 else 'eval'
+        direct = mode == 'calld'
+        head = ['c04', mode, name, sig_of(name)] + (['s'] if self.r.chance(1, 4) else [])
+        steps, conds, rid = [], [], 1
+        have_default = self.r.chance(7, 10)
+        if have_default:
+            steps.append(['ret', '0'])
+        ncond = self.r.choice([0, 1, 1, 2, 2, 3, 3, 4, 5, 6]) if not big else 17 + self.r.below(24)
+        if not have_default and ncond == 0:
+            ncond = 1
+        if m == 2 and self.r.chance(1, 2):
+            ncond = 0 if have_default else ncond     # As-path: keep half of the lines free of the known finding
+        ncalls = 0
+        for ci in range(ncond):
+            if steps and ncalls < 6 and self.r.chance(1, 3):           # calls between registrations: the When is live
+                for _ in range(1 + self.r.below(2)):
+                    steps.append(self.call_step(name, conds, direct))
+                    ncalls += 1
+                self.count('call.between-registrations')
+            st, cond = self.cond_steps(name, malformed, big)
+            steps.append(st)
+            if steps and len(steps) > 1 and self.r.chance(1, 12):      # ... even between When(..) and its Return(..)
+                steps.append(self.call_step(name, conds, direct))
+                ncalls += 1
+                self.count('call.between-when-and-return')
+            steps.append(['ret', str(rid)])
+            conds.append(cond)
+            rid += 1
+            if o >= 1 and self.r.chance(1, 8):      # Matches(Pair{args, k}, ...) = one When(args).Return(k) per pair
+                prs = []
+                for _ in range(1 + self.r.below(2)):
+                    n = self.arity(name)
+                    sp = self.specs(name, n)
+                    if n == 1 and self.r.chance(1, 2):
+                        prs.append(f'{show_spec(sp[0])}={rid}')          # Pair.Args not wrapped in []interface{}
+                        self.count('matches.bare-args')
+                    else:
+                        prs.append(f'[{",".join(show_spec(s) for s in sp)}]={rid}')
+                    conds.append(('when', sp))
+                    rid += 1
+                steps.append(['matches'] + prs)
+                self.count('clause.matches')
+            if malformed and self.r.chance(1, 5):
+                extra = self.r.below(5)
+                if extra == 0:
+                    steps.append(['andret', str(rid)])
+                elif extra == 1:
+                    steps.append(['ret', str(rid)])
+                elif extra == 2 and o >= 1:
+                    steps.append(['returns', str(rid), str(rid + 1)])
+                elif extra == 3 and o >= 1:
+                    steps.append(['matches', f'{show_spec(self.spec(kind_at(name, 0)))}={rid}'])
+                else:
+                    steps.append(['retx', str(rid), str(self.r.below(4))])
+                rid += 2
+                self.count('clause.malformed-extra')
+        for _ in range(max(2, 8 - ncalls)):
+            steps.append(self.call_step(name, conds, direct))
+        if not malformed and self.r.chance(1, 6):
+            jobs = []
+            for _ in range(3 + self.r.below(3)):
+                r, xs = self.call_args(name, conds, direct)
+                jobs.append(f'{r}:{",".join(xs) if xs else "-"}')
+            steps.append(['conc', '150'] + jobs)
+            self.count('step.concurrent')
+        return join_line(head, steps)
 
 
 def exhaustive_lane():
-    """every single-condition When over {0,1,*} per position x every call over {0,1}, tails up to 2, with and without default"""
+    """every single-condition When over {0,1,*} per position x every call over {0,1}, tails up to 2, with and without
+    default, through reflect and through compiled call sites"""
     import itertools
     lines = []
-    for name in ('f1', 'f2', 'f2b', 'v0', 'v1', 'v2', 'M1', 'M2', 'MV', 'MV1', 'VV'):
+    for name in ('f1', 'f2', 'f2b', 'v0', 'v1', 'v2', 'M1', 'M2', 'MV', 'MV1', 'VV', 'I1', 'IV'):
         k, v, m, o = T[name]
         arities = [len(k) - 1 + t for t in range(3)] if v else [len(k)]
+        recv = '-' if (not m or name in NO_RECV) else '0'
         calls = []
         for n in arities:
             for xs in itertools.product('01', repeat=n):
-                calls.append(('0' if m else '-', list(xs)))
+                calls.append(f'call {recv} {",".join(xs) if xs else "-"}')
         for n in arities:
-            if n == 0:
-                continue
             for sp in itertools.product('01*', repeat=n):
-                specs = [('*',) if c == '*' else ('v', c) for c in sp]
                 for dflt in (0, None):
-                    if dflt is None and v and n < len(k):
-                        continue        # a first When must cover every parameter (checkParams)
-                    clauses = (['ret 0'] if dflt is not None else []) + ['when ' + ','.join(sp), 'ret 1']
-                    text = f'c04 call {name} {sig_of(name)} | ' + ' ; '.join(clauses) + ' | ' + \
-                           ' ; '.join(f'call {r} {",".join(xs) if xs else "-"}' for r, xs in calls)
-                    lines.append((text, {'name': name, 'mode': 'call', 'view': {'dflt': dflt, 'conds': [(('when', specs), 1)]},
-                                         'calls': calls, 'nclauses': len(clauses)}))
+                    if not sp and dflt is None:
+                        continue        # known finding K1 has its own lines
+                    clauses = (['ret 0'] if dflt is not None else []) + ['when ' + (','.join(sp) or '-'), 'ret 1']
+                    mode = 'calld' if (len(lines) % 2 and v) else 'call'
+                    lines.append(f'c04 {mode} {name} {sig_of(name)} | ' + ' ; '.join(clauses + calls))
     return lines
 
 
-def finding_key(info, what):
-    k, v, m, o = T[info['name']]
-    view = info.get('view')
-    if view and view['dflt'] is None and view['conds'] and view['conds'][0][0] == ('when', []):
-        return 'K1-first-when-without-args'
-    if info['mode'] == 'eval' and (v or m):
-        return 'F6c-eval-shape'
-    if v and len(k) >= 2:
-        return 'F6-variadic-fixed-params'
+REGRESS = [  # past failures / the documented defect inputs / review and seed witnesses, run first
+    'c04 call v2 n=3,v=1,m=0,o=1 | ret 0 ; when 1,1,2,3 ; ret 1 | call - 1,1,2,3 ; call - 1,1 ; call - 1,1,2',             # F6
+    'c04 call v1s n=2,v=1,m=0,o=1 | ret 0 ; when 1,2 ; ret 1 | call - 1,2 ; call - 3',
+    'c04 call v1 n=2,v=1,m=0,o=1 | ret 0 ; in [1,2] [2] ; ret 1 | call - 1,2 ; call - 2 ; call - 1',                        # F6b
+    'c04 call v0 n=1,v=1,m=0,o=1 | ret 0 ; in [1,2] [3] ; ret 1 | call - 3 ; call - 1,2',
+    'c04 eval M1 n=1,v=0,m=1,o=1 | ret 0 ; when 1 ; ret 1 | call 0 1 ; call 1 0',                                          # F6c
+    'c04 eval v0 n=1,v=1,m=0,o=1 | ret 0 ; when 1,2 ; ret 1 | call - 1,2 ; call - -',
+    'c04 call f1 n=1,v=0,m=0,o=1 | ret 0 ; call - 1 ; when 1 ; ret 5 ; call - 1 ; call - 0',                               # live When (review D1)
+    'c04 calld v1 n=2,v=1,m=0,o=1 | ret 0 ; when 1 ; ret 5 ; call - 1 ; call - 1,1',                                       # nil tail (review D2)
+    'c04 calld MV n=1,v=1,m=1,o=1 | ret 0 ; when - ; ret 5 ; in [] ; ret 6 ; call 0 - ; call 1 1',
+    'c04 call v1 n=2,v=1,m=0,o=1 | when 1 ; ret 5 ; call - 1 ; call - 1,1',                                                # F27 first When on a variadic
+    'c04 call v1 n=2,v=1,m=0,o=1 | ret 0 ; in 1 2 ; ret 5 ; call - 2 ; call - 1 ; call - 1,2',                             # F28 bare alternatives
+    'c04 call v0i n=1,v=1,m=0,o=1 | ret 0 ; in 2 ; ret 5 ; call - 2 ; call - 0,1',                                         # F28 In("a") on ...interface{}
+    'c04 call v1 n=2,v=1,m=0,o=1 | ret 0 ; in [*,{0|1}] [{0|1},*,*] ; ret 2 ; conc 300 -:1,0 -:0,1 -:1,1,1 -:3,3 -:0,3,3',  # seed c04-1
+    'c04 call MV1 n=2,v=1,m=1,o=1 | ret 0 ; in [0,1] [1,0] [1,1,1] ; ret 2 ; conc 300 0:0,1 1:1,0 0:1,1,1 1:0,0 1:1',
+    'c04 call f1sl n=1,v=0,m=0,o=1 | ret 0 ; when 1 ; ret 1 ; when 0 ; ret 2 ; call - 2 ; call - 1 ; call - 0 ; call - 3',  # seed c04-3 (slice windows)
+    'c04 call v1sl n=2,v=1,m=0,o=1 | ret 0 ; when 1,1 ; ret 1 ; when 2,* ; ret 2 ; call - 2,1 ; call - 1,1 ; call - 0,1',
+    'c04 call U1 n=1,v=0,m=2,o=1 | ret 0 ; call 0 1 ; call 1 1',                                                           # As(): default only
+    'c04 call I1 n=1,v=0,m=1,o=1 | ret 0 ; when 1 ; ret 5 ; call - 1 ; call - 0 ; when 0 ; ret 6 ; call - 0',
+]
+
+
+def finding_label(name, mode, what):
+    """label for replay files (not a known-finding key)"""
+    k, v, m, o = T[name]
+    if mode == 'eval' and (v or m):
+        return 'eval-shape'
     if v:
-        return 'F6b-in-alternative-length'
+        return 'variadic'
     return None
 
 
-def oracle(info, obs, stats=None):
-    """The property on the implementation's observation. Returns None or (what, key)."""
-    if obs is None:
-        return ('no observation (probe crashed on this line)', None)
-    toks = obs.split()
-    view = info['view']
-    if view is None:
+def oracle(op, obs, stats=None):
+    """The property on the implementation's observation. Returns None or (what, known-finding key or None, step index)."""
+    events, wf, k1, name, mode = walk(op)
+    if not wf:
         return None
-    nc = info['nclauses']
-    reg = toks[:nc]
-    if 'stop' in toks or any(t != 'ok' for t in reg):
-        bad = next((t for t in toks if t.startswith('panic:')), '?')
-        if bad in ('panic:arglen', 'panic:retlen', 'panic:whenerr', 'panic:inerr', 'panic:reterr'):
+    if obs is None or obs == 'crash':
+        return ('no observation: the probe process died on this line (twice)', None, None)
+    if obs.startswith('bad-') or 'probe-panic' in obs:
+        return None                 # not a statement about goom (run() turns these into a machinery error)
+    toks = obs.split()
+    k, v, m, o = T[name]
+    first_cond = next((i for i, e in enumerate(events) if e[0] == 'reg'), None)
+    for i, ev in enumerate(events):
+        got = toks[i] if i < len(toks) else None
+        if ev[0] == 'reg':
+            if got == 'ok':
+                continue
+            key = None
+            head, steps = split_line(op)
+            if m == 2 and got == 'panic:reject' and steps[i][0] in ('when', 'in', 'matches'):
+                # K2, narrow: exactly "the receiver counts as a parameter": the first When/In written for the method is refused
+                if not any(s[0] in ('when', 'in', 'matches') for s in steps[:i]):
+                    key = 'K2-as-method-receiver-is-parameter'
+            return (f'well-formed configuration is not accepted: step {i} `{" ".join(steps[i])}` gave {got}', key, i)
+        if ev[0] == 'call':
+            _, want, cls, tie = ev
             if stats is not None:
-                stats['rejected-at-registration'] = stats.get('rejected-at-registration', 0) + 1
-            return None    # an explicit rejection of the configuration, not a wrong answer
-        return (f'well-formed configuration is not accepted: {bad} while registering', finding_key(info, bad))
-    outs = toks[nc:]
-    k, v, m, o = T[info['name']]
-    if len(outs) != len(info['calls']):
-        return (f'{len(outs)} observations for {len(info["calls"])} calls: {obs}', None)
-    for (recv, xs), got in zip(info['calls'], outs):
-        holding = [r for c, r in view['conds'] if cond_holds(c, xs)]
-        if holding:
-            want = f'ret:{holding[0]}'
-            cls = 'matched-first' if view['conds'][0][1] == holding[0] else 'matched-later'
-        elif view['dflt'] is not None:
-            want, cls = f'ret:{view["dflt"]}', 'default'
-        elif o > 0:
-            want, cls = 'panic:nosuitable', 'panic-no-suitable'
+                stats[cls] = stats.get(cls, 0) + 1
+                if tie:
+                    stats['ties(>=2 conditions hold)'] = stats.get('ties(>=2 conditions hold)', 0) + 1
+            if got != want:
+                key = None
+                if k1:
+                    key = 'K1-first-when-without-args' if got == k1_prediction(op, i) else None
+                return (f'step {i}: call gave {got}, the first matching condition/default rule demands {want}', key, i)
         else:
-            want, cls = 'ret:-', 'no-results-no-default'
-        if o == 0 and want.startswith('ret:'):
-            want = 'ret:-'
-        if stats is not None:
-            stats[cls] = stats.get(cls, 0) + 1
-            if len(holding) >= 2:
-                stats['ties(>=2 conditions hold)'] = stats.get('ties(>=2 conditions hold)', 0) + 1
-        if got != want:
-            key = finding_key(info, got)
-            if key == 'K1-first-when-without-args':
-                # narrow match: exactly what "the first Return became the default" predicts, nothing else
-                later = [r for c, r in view['conds'][1:] if cond_holds(c, xs)]
-                k1 = f'ret:{later[0]}' if later else f'ret:{view["conds"][0][1]}'
-                if o == 0:
-                    k1 = 'ret:-'
-                if got != k1:
-                    key = None
-            return (f'call({",".join(xs) or "-"}) gave {got}, the first matching condition/default rule demands {want}', key)
+            wants = ev[1]
+            if stats is not None:
+                stats['concurrent calls (goroutines)'] = stats.get('concurrent calls (goroutines)', 0) + len(wants)
+            if got != 'conc:' + '/'.join(wants):
+                key = None
+                if k1 and got is not None and got.startswith('conc:'):
+                    pred = k1_prediction(op, i)
+                    key = 'K1-first-when-without-args' if got == pred else None
+                return (f'step {i}: concurrent calls gave {got}, the rule demands conc:{"/".join(wants)}', key, i)
+    return None
+
+
+def k1_prediction(op, idx):
+    """what K1 ("the Return after a leading When() became the default") predicts for step idx: the first condition is
+    demoted to the default"""
+    head, steps = split_line(op)
+    # rewrite: drop the leading `when -`, so its `ret k` is read as the default
+    j = next(i for i, s in enumerate(steps) if s[0] not in ('call', 'conc'))
+    steps2 = steps[:j] + steps[j + 1:]
+    events, wf, _, _, _ = walk(join_line(head, steps2))
+    i2 = idx - 1 if idx > j else idx
+    if i2 >= len(events):
+        return None
+    ev = events[i2]
+    if ev[0] == 'call':
+        return ev[1]
+    if ev[0] == 'conc':
+        return 'conc:' + '/'.join(ev[1])
     return None
 
 
@@ -373,12 +568,16 @@ def build_probe():
     return b
 
 
+PROBE_ENV = {'GOOM_DEBUG': '', 'GODEBUG': '', 'GOGC': '', 'GOMAXPROCS': '', 'GOTRACEBACK': 'single'}
+
+
 def run_impl(binary, ops_path, out_path, n):
-    """Run the probe; a crash (patched code) loses only the crashing line, the run resumes behind it."""
+    """Run the probe.  If the process dies (a crash in patched code, a kill, a timeout) the run resumes at the line it
+    died on; that line is retried ONCE on its own and only a second death is recorded as `crash`."""
     impl = [None] * n
-    start, crashes = 0, 0
+    start, deaths, retried = 0, 0, set()
     while start < n:
-        rc, log = C.run_probe(binary, 'TestVerifC04', ops_path, out_path, env={'VERIF_START': str(start)}, timeout=1500)
+        rc, log = C.run_probe(binary, 'TestVerifC04', ops_path, out_path, env=dict(PROBE_ENV, VERIF_START=str(start)), timeout=3000)
         got = C.read_indexed(out_path, n)
         last = -1
         for i, v in enumerate(got):
@@ -387,50 +586,59 @@ def run_impl(binary, ops_path, out_path, n):
                 last = max(last, i)
         if rc == 0:
             break
-        crashes += 1
+        deaths += 1
         nxt = max(last, start - 1) + 1
-        impl[nxt] = 'crash'
-        start = nxt + 1
-        if crashes > 50:
-            raise C.Infra('C04 probe keeps crashing:\n' + log[-2000:])
-    return impl, crashes
+        if nxt >= n:
+            break
+        if nxt in retried:
+            impl[nxt] = 'crash'
+            start = nxt + 1
+        else:
+            retried.add(nxt)
+            start = nxt
+        if deaths > 60:
+            raise C.Infra('C04 probe keeps dying:\n' + log[-2000:])
+    return impl, deaths
 
 
 def execute(ops, tag='c04'):
     ops_path = os.path.join(C.BUILD, f'{tag}.ops')
     open(ops_path, 'w').write('\n'.join(ops) + '\n')
     b = build_probe()
-    impl, crashes = run_impl(b, ops_path, os.path.join(C.BUILD, f'{tag}.impl'), len(ops))
+    impl, deaths = run_impl(b, ops_path, os.path.join(C.BUILD, f'{tag}.impl'), len(ops))
     exe, err = C.build_driver()
     if exe is None:
-        return impl, None, err, crashes
+        return impl, None, err, deaths
     model = C.run_driver(exe, ops_path, os.path.join(C.BUILD, f'{tag}.model'))
-    return impl, model, '', crashes
+    return impl, model, '', deaths
 
 
 def variants(op):
-    """smaller lines: a single call; one condition (clause + its ret) removed"""
-    parts = [x.strip() for x in op.split(' | ')]     # sections are separated by ' | '; a bare '|' belongs to an In expression
-    if len(parts) != 3:
-        return []      # a value containing '|' (or a malformed line): do not shrink
-    head, cl, ca = parts
-    clauses = [c.strip() for c in cl.split(';') if c.strip()]
-    calls = [c.strip() for c in ca.split(';') if c.strip()]
+    """smaller lines: one call/conc step removed; one condition (clause + its ret) removed; a conc step with one tuple less"""
+    head, steps = split_line(op)
+    if len(head) < 4:
+        return []
     out = []
-    if len(calls) > 1:
-        for c in calls:
-            out.append(f'{head} | {" ; ".join(clauses)} | {c}')
-    for i in range(len(clauses) - 1):
-        if clauses[i].split()[0] in ('when', 'in') and clauses[i + 1].startswith('ret ') and len(clauses) > 2:
-            rest = clauses[:i] + clauses[i + 2:]
-            out.append(f'{head} | {" ; ".join(rest)} | {" ; ".join(calls)}')
-    return out
+    ncalls = sum(1 for s in steps if s[0] in ('call', 'conc'))
+    for i, s in enumerate(steps):
+        if s[0] in ('call', 'conc') and ncalls > 1:
+            out.append(join_line(head, steps[:i] + steps[i + 1:]))
+        if s[0] == 'conc' and len(s) > 4:
+            for j in range(2, len(s)):
+                out.append(join_line(head, steps[:i] + [s[:j] + s[j + 1:]] + steps[i + 1:]))
+        if s[0] in ('when', 'in') and i + 1 < len(steps) and steps[i + 1][0] == 'ret':
+            rest = steps[:i] + steps[i + 2:]
+            if any(x[0] not in ('call', 'conc') for x in rest):
+                out.append(join_line(head, rest))
+        if s[0] == 'matches':
+            out.append(join_line(head, steps[:i] + steps[i + 1:]))
+    return [c for c in out if split_line(c)[1] and split_line(c)[1][0][0] not in ('call', 'conc')]
 
 
 def shrink(op, key, binary):
-    """greedy delta debugging on the implementation only (the oracle decides), at most 12 rounds"""
+    """greedy delta debugging on the implementation only (the oracle decides), at most 40 rounds"""
     what = None
-    for _ in range(12):
+    for _ in range(40):
         cands = variants(op)
         if not cands:
             break
@@ -440,7 +648,7 @@ def shrink(op, key, binary):
         nxt = None
         for c, obs in zip(cands, impl):
             try:
-                why = oracle(parse_line(c), obs)
+                why = oracle(c, obs)
             except Exception:
                 why = None
             if why and why[1] == key:
@@ -457,39 +665,65 @@ def run(tier):
     rng = C.Rng(C.seed()).fork('C04')
     proof = C.prove('C04', leanchecker=(tier == 'thorough'))
     g = Gen(rng)
-    lines = list(REGRESS) + exhaustive_lane()
-    nexh = len(lines) - len(REGRESS)
-    per_target = 40 if tier == 'quick' else 3000
+    exh = exhaustive_lane()
+    lines = list(REGRESS) + exh
+    per_target = 30 if tier == 'quick' else 2000
     for name in NAMES:                      # every corpus target gets its share, then a random mix
         for _ in range(per_target):
             lines.append(g.line(name))
-    for _ in range(600 if tier == 'quick' else 60000):
+    for _ in range(500 if tier == 'quick' else 50000):
         lines.append(g.line())
+    nbig = 40 if tier == 'quick' else 2500
+    for _ in range(nbig):                   # many conditions / alternatives / deep nesting / long tails
+        lines.append(g.line(big=True))
     nwf = len(lines)
     for _ in range(400 if tier == 'quick' else 30000):
         lines.append(g.line(malformed=True))
-    ops = [l for l, _ in lines]
-    infos = [i for _, i in lines]
-    impl, model, derr, crashes = execute(ops)
+    ops = lines
+    impl, model, derr, deaths = execute(ops)
 
+    for i, x in enumerate(impl):
+        if x and (x.startswith('bad-') or 'probe-panic' in x):
+            raise C.Infra(f'C04 probe cannot run line {i}: {ops[i]} -> {x}')
     stats, bad = {}, []
-    for i, info in enumerate(infos):
-        why = oracle(info, impl[i], stats)
+    for i, op in enumerate(ops):
+        try:
+            why = oracle(op, impl[i], stats)
+        except Exception as e:          # a reader bug must not hide behind a pass
+            raise C.Infra(f'C04 oracle cannot read line {i}: {op}: {e!r}')
         if why:
             bad.append((i, why))
+    # floors: a lane that silently ran nothing is a machinery error, not a pass
+    floors = {'matched-first': 200, 'matched-later': 100, 'default': 100, 'panic-no-suitable': 50,
+              'ties(>=2 conditions hold)': 100, 'concurrent calls (goroutines)': 50}
+    if not bad:
+        for k, fl in floors.items():
+            if stats.get(k, 0) < fl:
+                raise C.Infra(f'C04 lane floor not reached: {k} = {stats.get(k, 0)} < {fl} (generator or probe ran too little)')
+        if sum(1 for x in impl if x and 'ret:' in x) < len(ops) // 3:
+            raise C.Infra('C04: fewer than a third of the lines produced any result: the probe did not run properly')
     seen = set()
-    for i, (what, key) in bad:
-        if key in seen:
+    for i, (what, key, si) in bad:
+        # one report per known-finding key, or per kind of failure (which step kind failed, and how)
+        head, steps = split_line(ops[i])
+        toks = (impl[i] or '').split()
+        sig = key or (steps[si][0] if si is not None and si < len(steps) else '?',
+                      toks[si].split('(')[0].rstrip('0123456789') if si is not None and si < len(toks) else 'none')
+        if sig in seen:
             continue
-        seen.add(key)
+        seen.add(sig)
+        small = ops[i]
         try:
-            small, what2 = shrink(ops[i], key, build_probe()) if impl[i] != 'crash' else (ops[i], None)
-            what = what2 or what
+            if impl[i] != 'crash':
+                small, what2 = shrink(ops[i], key, build_probe())
+                what = what2 or what
         except Exception:       # the shrinker is a convenience; a failure to shrink must never hide the violation
             small = ops[i]
-        out.violation(f'{small}: {what}', {'kind': 'impl-oracle', 'ops': [small], 'original_op': ops[i], 'observed': impl[i], 'why': what, 'finding': key,
+        _, _, _, name, mode = walk(ops[i])
+        out.violation(f'{small}: {what}', {'kind': 'impl-oracle', 'ops': [small], 'original_op': ops[i], 'observed': impl[i], 'why': what,
+                                           'finding': key or finding_label(name, mode, what),
                                            'n_lines_failing': len(bad), 'how': 'python3 check.py C04 --replay <this file>'}, key=key)
-        if len(seen) >= 4:
+        if len(seen) >= 5:
             break
     diffs = C.diff_streams(ops, impl, model) if model is not None else []
     if model is None:
@@ -504,125 +738,40 @@ def run(tier):
             out.violation('proof obligations of Props/C04.lean no longer check and no failing input was found in the search',
                           {'kind': 'proof', 'broken': proof['failed'], 'searched': len(ops), 'output': proof.get('output', '')[-3000:]},
                           no_failing_input=True)
-    shapes = {}
-    for info in infos:
-        k, v, m, o = T[info['name']]
-        s = ('method ' if m else '') + (f'variadic+{len(k) - 1}fixed' if v else f'fixed{len(k)}') + f' out{o}'
+    shapes, modes, ncalls, nwfl = {}, {}, 0, 0
+    for op in ops:
+        head, steps = split_line(op)
+        k, v, m, o = T[head[2]]
+        s = {0: '', 1: 'method ', 2: 'As()-method '}[m] + (f'variadic+{len(k) - 1}fixed' if v else f'fixed{len(k)}') + f' out{o}'
         shapes[s] = shapes.get(s, 0) + 1
-    modes = {}
-    for info in infos:
-        modes[info['mode']] = modes.get(info['mode'], 0) + 1
-    ncalls = sum(len(i['calls']) for i in infos)
+        md = head[1] + ('+shared-exprs' if len(head) > 4 else '')
+        modes[md] = modes.get(md, 0) + 1
+        ncalls += sum(1 if st[0] == 'call' else len(st) - 2 if st[0] == 'conc' else 0 for st in steps)
     nontrivial = len({(op, impl[i]) for i, op in enumerate(ops) if impl[i] and 'ret:' in impl[i]})
     out.coverage = {
         'obligations': proof['obligations'], 'discharged': proof['discharged'],
         'checker_cmd': ' ; '.join(proof['cmds']),
         'trusted_base': ['Lean 4.33 kernel', 'axioms: ' + ', '.join(sorted({a for v in proof['axioms'].values() for a in v}) or ['none']),
                          'hand transcription Model/When.lean (differentially run against the real code on every line below)',
-                         'probe harness/c04 and its value domains (pairwise different under goom equality)',
-                         'not modelled: value types/sizes (arg.toValue), the equality algebra (C18), multi-result cursors under concurrency (C05), reflect.MakeFunc ABI (C01)'],
+                         'probe harness/c04 and its value domains (pairwise different under goom equality; slices are windows of one backing array)',
+                         'not modelled: value types/sizes (arg.toValue), the equality algebra (C18), multi-result cursors under concurrency (C05), reflect.MakeFunc ABI (C01); '
+                         'concurrent calls are compared with the sequential answer per goroutine'],
         'theorems': proof['axioms'], 'proof_failures': proof['failed'],
         'evaluations': ncalls, 'distinct_nontrivial': nontrivial,
         'traces_validated_against_impl': len(ops) - len(diffs),
-        'rule': 'one evaluation = one call (through the patched function or When.Eval) under one generated configuration; one line = configuration + 8 calls; '
+        'rule': 'one evaluation = one call (reflect call of the patched function, compiled call site, When.Eval, or one goroutine of a concurrent step) under the '
+                'configuration registered so far; one line = a history of registrations interleaved with calls; '
                 'non-trivial = distinct line on which at least one call returned a configured result',
-        'distribution': {'lines': len(ops), 'regress corpus': len(REGRESS), 'exhaustive small lane': nexh, 'well-formed lane': nwf, 'malformed lane': len(ops) - nwf, 'corpus targets': len(NAMES),
+        'distribution': {'lines': len(ops), 'regress corpus': len(REGRESS), 'exhaustive small lane': len(exh), 'well-formed lanes': nwf,
+                         'big lane (17-40 conditions, <=8 alternatives, nesting <=4, tails <=8)': nbig,
+                         'malformed lane': len(ops) - nwf, 'corpus targets': len(NAMES),
                          'modes': modes, 'signature shapes': shapes, 'generated': g.dist,
-                         'outcomes on oracle-checked calls': stats, 'probe crashes': crashes},
+                         'outcomes on oracle-checked calls': stats, 'probe process deaths': deaths},
         'samples': [{'op': ops[i], 'impl': impl[i], 'model': model[i] if model else None} for i in (0, len(ops) // 3, len(ops) // 2, len(ops) - 1)],
     }
     out.assumptions = ['argument equality of the probe domains coincides with index equality (checked implicitly by the oracle on every call)',
-                       'reflect.Value.Call enters the same patched entry point as a direct call']
+                       'reflect.Value.Call enters the same patched entry point as a direct call (compiled call sites are exercised for 17 targets)']
     return out.finish()
-
-
-def parse_line(op):
-    """rebuild the oracle's view from an op line (replay)"""
-    secs = [s.strip() for s in op.split(' | ')]
-    head = secs[0].split()
-    name, mode = head[2], head[1]
-    clauses = [c.strip() for c in secs[1].split(';') if c.strip()]
-
-    def pspec(s, pos):
-        ch = s[pos]
-        if ch == '*':
-            return ('*',), pos + 1
-        if ch == '{':
-            alts, pos = [], pos + 1
-            while True:
-                if s[pos] == '[':
-                    xs, pos = plist(s, pos + 1, ']')
-                    alts.append((True, xs))
-                else:
-                    x, pos = pspec(s, pos)
-                    alts.append((False, [x]))
-                if s[pos] == '|':
-                    pos += 1
-                    continue
-                break
-            return ('i', alts), pos + 1
-        return ('v', ch), pos + 1
-
-    def plist(s, pos, end):
-        xs = []
-        if s[pos] == end:
-            return xs, pos + 1
-        while True:
-            x, pos = pspec(s, pos)
-            xs.append(x)
-            if pos < len(s) and s[pos] == ',':
-                pos += 1
-                continue
-            break
-        return xs, pos + 1
-
-    view = {'dflt': None, 'conds': []}
-    i, wf = 0, True
-    if clauses and clauses[0].startswith('ret '):
-        view['dflt'] = int(clauses[0].split()[1])
-        i = 1
-    while i < len(clauses) and wf:
-        c = clauses[i].split()
-        if c[0] == 'matches' and i > 0 and T[name][3] >= 1:      # one When(args).Return(k) per pair
-            for pr in c[1:]:
-                a, _, kk = pr.rpartition('=')
-                if not a.startswith('['):
-                    wf = False
-                    break
-                view['conds'].append((('when', plist(a, 1, ']')[0]), int(kk)))
-            i += 1
-            continue
-        if i + 1 >= len(clauses) or not clauses[i + 1].startswith('ret '):
-            wf = False
-            break
-        rid = int(clauses[i + 1].split()[1])
-        if c[0] == 'when':
-            if c[1] == '-':
-                sp = []
-            else:
-                sp, _ = plist(c[1] + ']', 0, ']')
-            view['conds'].append((('when', sp), rid))
-        elif c[0] == 'in':
-            alts = []
-            for a in c[1:]:
-                if a.startswith('<'):
-                    alts.append([('v', x) for x in a[1:-1].split(',') if x])
-                elif a.startswith('['):
-                    alts.append(plist(a, 1, ']')[0])
-                else:
-                    alts.append([pspec(a, 0)[0]])
-                    k, v, m, o = T[name]
-                    if v or len(k) != 1:
-                        wf = False
-            view['conds'].append((('in', alts), rid))
-        else:
-            wf = False
-        i += 2
-    calls = []
-    for c in [c.strip() for c in secs[2].split(';') if c.strip()]:
-        t = c.split()
-        calls.append((t[1], [] if t[2] == '-' else t[2].split(',')))
-    return {'name': name, 'mode': mode, 'view': view if wf else None, 'calls': calls, 'nclauses': len(clauses)}
 
 
 def replay(body):
@@ -630,8 +779,8 @@ def replay(body):
     impl, model, _, _ = execute(ops, tag='c04-replay')
     rc = 0
     for i, op in enumerate(ops):
-        why = oracle(parse_line(op), impl[i])
+        why = oracle(op, impl[i])
         print(f'{op}\n  impl : {impl[i]}\n  model: {model[i] if model else None}\n  oracle: {why[0] if why else "ok"}')
-        if why or (model and impl[i] != model[i]):
+        if (why and why[1] is None) or (model and impl[i] != model[i]):
             rc = 1
     return rc
